@@ -3,10 +3,13 @@
 package mocktikv
 
 import (
+	"context"
 	"fmt"
 	"strings"
 
 	"github.com/pingcap/goleveldb/leveldb/util"
+	"github.com/pingcap/kvproto/pkg/errorpb"
+	"github.com/tikv/client-go/v2/tikvrpc"
 )
 
 // VerifDumpKey renders the lock and all version records of one key in the canonical form shared with the
@@ -41,3 +44,23 @@ func VerifDumpKey(store MVCCStore, key []byte, hexf func([]byte) string) string 
 
 // VerifRolledBackFields exposes the (unexported) fields of ErrAlreadyRollbacked.
 func VerifRolledBackFields(e *ErrAlreadyRollbacked) (uint64, []byte) { return e.startTS, e.key }
+
+// VerifSessionCheck runs the checks RPCClient.SendRequest performs before it executes a KV command — context cancelled,
+// store of the address, peer/store match, region exists, leader, epoch, request size — and returns the region error (if
+// any) and the raw key range of the addressed region.  The hub's Lean-store client (profile `full`) uses it so that
+// region errors, splits and leader moves behave exactly as with the mock.
+func VerifSessionCheck(c *RPCClient, ctx context.Context, addr string, req *tikvrpc.Request) (regionErr *errorpb.Error, rawStart, rawEnd []byte, err error) {
+	tikvrpc.AttachContext(req, req.Context)
+	session, err := c.checkArgs(ctx, addr)
+	if err != nil {
+		return nil, nil, nil, err
+	}
+	size := 0
+	if m, ok := req.Req.(interface{ Size() int }); ok {
+		size = m.Size()
+	}
+	if e := session.checkRequest(&req.Context, size); e != nil {
+		return e, nil, nil, nil
+	}
+	return nil, MvccKey(session.startKey).Raw(), MvccKey(session.endKey).Raw(), nil
+}
